@@ -103,6 +103,9 @@ def main():
     mp = os.path.join(dst, "meta.json")
     if os.path.exists(mp):
         old = json.load(open(mp))
+        for k in ("note", "summary"):
+            if k in old:
+                meta[k] = old[k]
         old_checks = old.get("checks", {})
         old_checks.update(meta["checks"])
         meta["checks"] = old_checks
